@@ -42,7 +42,10 @@ inductive Instr (ν : Type) where
   deriving Repr
 
 mutual
-/-- direct call targets of one instruction, nested bodies included (`markFuncReachable_ins`) -/
+/-- direct call targets of one instruction, nested bodies included (`markFuncReachable_ins`).
+Every *syntactic* `call` is an edge, whether or not control can reach it: `return`, `unreachable`,
+`br` are `.other` and do not end the walk — code after them is dead but is still printed, so its
+call targets must still be defined in the stripped module. -/
 def Instr.calls {ν : Type} : Instr ν → List ν
   | .call f => [f]
   | .tableSet _ => []
